@@ -216,6 +216,11 @@ def slice_inner(repo: Repo, R, prefix: str):
         wdef = au.expand(wexpr, defs, depth=2) if wexpr is not None else None
         m = pat.match("len(range($A, $B, $C))", wdef) if wdef is not None else None
         w_ok = m is not None and [ast.unparse(m[k]) for k in "ABC"] == trip
+        for ct in ctor[1:]:
+            we2 = {k.arg: k.value for k in ct.keywords}.get("width")
+            wd2 = au.expand(we2, defs, depth=2) if we2 is not None else None
+            m2 = pat.match("len(range($A, $B, $C))", wd2) if wd2 is not None else None
+            w_ok = w_ok and m2 is not None and [ast.unparse(m2[k]) for k in "ABC"] == trip
         R.check(w_ok, r_sl, key_of(fi, "width-is-count"), fi.at(ctor[0]),
                 f"width = `{ast.unparse(wdef) if wdef is not None else None}`; expected len(range({', '.join(trip)}))",
                 why="the reported width differs from the number of selected bits (s[1::2] of a 4-bit bus reports width 1)")
@@ -263,10 +268,15 @@ def slice_inner(repo: Repo, R, prefix: str):
         bt_ok = False
         detail = "bot/top assignment per sign of step not recognised"
         got = {}
-        for fld in ("bot", "top"):
-            for v, cds in shared.alternatives(fi.node, kw[fld], list(path_conditions(fi.node, ctor[0]))):
-                sg = c01._sign_of_branch([(shared.prov(fi.node, t), pol) for t, pol in cds], atom_suffix=step)
-                got.setdefault(sg, {})[fld] = v
+        # every construction of the record on the slice branch (one after the sign is decided, or one per sign)
+        for ct in ctor:
+            kwc = {k.arg: k.value for k in ct.keywords}
+            if not {"bot", "top"} <= set(kwc):
+                continue
+            for fld in ("bot", "top"):
+                for v, cds in shared.alternatives(fi.node, kwc[fld], list(path_conditions(fi.node, ct)), at=ct):
+                    sg = c01._sign_of_branch([(shared.prov(fi.node, t), pol) for t, pol in cds], atom_suffix=step)
+                    got.setdefault(sg, {})[fld] = v
         if set(got) == {1, -1} and all(set(got[k]) == {"bot", "top"} for k in got):
             p_ok = is_start(got[1]["bot"]) and plus1(got[1]["top"], is_last)
             n_ok = is_last(got[-1]["bot"]) and plus1(got[-1]["top"], is_start)
@@ -282,7 +292,7 @@ def slice_inner(repo: Repo, R, prefix: str):
         R.check(bt_ok, r_sl, key_of(fi, "bot-top"), fi.at(ctor[0]),
                 detail + (" — bot is the lowest selected index and top one past the highest, for both directions" if bt_ok else ""),
                 why="bot/top of strided or reversed slices are off, so nested resolution and export pick other bits")
-        s_ok = ast.unparse(kw.get("step")) == step
+        s_ok = all(ast.unparse({k.arg: k.value for k in ct.keywords}.get("step")) == step for ct in ctor)
         R.check(s_ok, r_sl, key_of(fi, "step"), fi.at(ctor[0]), f"step field is the normalised step `{step}`: {s_ok}", why="stride lost")
     else:
         # hand-written normalisation
